@@ -174,6 +174,7 @@ func (d *duplexHTTPCall) Read(data []byte) (int, error) {
 		if stored := d.getError(); stored != nil {
 			return n, stored
 		}
+		err = wrapIfContextDone(d.ctx, wrapIfContextError(err))
 	}
 	// A body read that fails because the call's context ended must surface as
 	// canceled or deadline_exceeded, whatever layer reports it.
@@ -279,6 +280,7 @@ func (d *duplexHTTPCall) makeRequest() {
 	verifYield("request.done")
 	if err != nil {
 		err = wrapIfContextError(err)
+		err = wrapIfContextDone(d.ctx, err)
 		err = wrapIfLikelyH2CNotConfiguredError(d.request, err)
 		err = wrapIfLikelyWithGRPCNotUsedError(err)
 		err = wrapIfRSTError(err)
